@@ -37,7 +37,16 @@ pub enum Inject {
 #[derive(Clone, Debug, Serialize, Deserialize)]
 pub enum Case {
     Source { spec: ProgSpec, inject: Inject, stack_flag: bool },
-    Watch { contents: Vec<String> },
+    /// successive contents of the watched file; `events[k]` says how content k reaches the disk
+    /// (bits 1:0: 0 rewrite in place, 1 remove then create, 2 write a temporary file and rename it
+    /// over, 3 truncate then write in two steps) and what else happens in the folder just before
+    /// (bit 2: another file is created, bit 3: another file is removed, bit 4: another .asm file
+    /// is written); absent entries mean 0
+    Watch {
+        contents: Vec<String>,
+        #[serde(default)]
+        events: Vec<u8>,
+    },
 }
 
 fn pcrel_form(k: u8) -> (Op, Vec<u8>) {
@@ -140,7 +149,7 @@ fn source_for(spec: &ProgSpec, inject: Inject) -> Option<(String, bool, bool, Op
 pub fn judge_case(c: &Case) -> Obs {
     match c {
         Case::Source { spec, inject, stack_flag } => judge_source(spec, *inject, *stack_flag),
-        Case::Watch { contents } => judge_watch(contents),
+        Case::Watch { contents, events } => judge_watch(contents, events),
     }
 }
 
@@ -266,12 +275,18 @@ fn read_file(p: &std::path::Path) -> String {
     s
 }
 
-fn judge_watch(contents: &[String]) -> Obs {
+fn judge_watch(contents: &[String], events: &[u8]) -> Obs {
     let mut obs = Obs::default();
-    obs.key = hash_of(contents);
+    obs.key = hash_of(&(contents, events));
     obs.nontrivial = true;
     obs.label("watch-scenario");
-    obs.show = Some(format!("watch scenario with {} rewrites:\n{}", contents.len(), contents.iter().map(|c| format!("---\n{c}")).collect::<Vec<_>>().join("\n")));
+    obs.show = Some(format!("watch scenario with {} rewrites (events {events:?}):\n{}", contents.len(), contents.iter().map(|c| format!("---\n{c}")).collect::<Vec<_>>().join("\n")));
+    if events.iter().any(|e| e & 3 != 0) {
+        obs.label("watch-remove-or-rename-saves");
+    }
+    if events.iter().any(|e| e & 0x1C != 0) {
+        obs.label("watch-other-files-change");
+    }
     let watched = TempDir::new();
     let logs = TempDir::new();
     watched.write("f.asm", b"halt\n");
@@ -309,9 +324,50 @@ fn judge_watch(contents: &[String]) -> Obs {
         if inconclusive {
             break;
         }
+        let ev = events.get(k).copied().unwrap_or(0);
+        let target = watched.path().join("f.asm");
+        // something else happens in the folder first; the watcher may re-check the old content
+        if ev & 0x1C != 0 {
+            if ev & 4 != 0 {
+                let _ = std::fs::write(watched.path().join("other.txt"), b"scratch\n");
+            }
+            if ev & 8 != 0 {
+                let other = watched.path().join("other.txt");
+                if !other.exists() {
+                    let _ = std::fs::write(&other, b"scratch\n");
+                    std::thread::sleep(std::time::Duration::from_millis(900));
+                }
+                let _ = std::fs::remove_file(&other);
+            }
+            if ev & 16 != 0 {
+                let _ = std::fs::write(watched.path().join("g.asm"), b"start halt\nmsg .fill x1\n");
+            }
+            // the watcher debounces for 500 ms: let it finish whatever these events made it re-check
+            std::thread::sleep(std::time::Duration::from_millis(1600));
+        }
         let mark_out = read_file(&out_path).len();
         let mark_err = read_file(&err_path).len();
-        std::fs::write(watched.path().join("f.asm"), content).unwrap();
+        match ev & 3 {
+            0 => std::fs::write(&target, content).unwrap(),
+            1 => {
+                let _ = std::fs::remove_file(&target);
+                std::thread::sleep(std::time::Duration::from_millis(30));
+                std::fs::write(&target, content).unwrap();
+            }
+            2 => {
+                let tmp = watched.path().join(".f.asm.tmp");
+                std::fs::write(&tmp, content).unwrap();
+                std::fs::rename(&tmp, &target).unwrap();
+            }
+            _ => {
+                use std::io::Write;
+                let mut f = std::fs::File::create(&target).unwrap();
+                let half = (0..=content.len() / 2).rev().find(|i| content.is_char_boundary(*i)).unwrap_or(0);
+                let _ = f.write_all(content[..half].as_bytes());
+                let _ = f.flush();
+                let _ = f.write_all(content[half..].as_bytes());
+            }
+        }
         // expected verdict: what `lace check` says about the same content
         let cdir = TempDir::new();
         cdir.write("f.asm", content.as_bytes());
@@ -335,12 +391,35 @@ fn judge_watch(contents: &[String]) -> Obs {
                 None
             }
         };
+        if ev & 3 == 2 && !wait_for(&|o, e| got_verdict(o, e).is_some(), 5) {
+            // a save by rename-over often reaches the watcher as Create / Rename events only, which
+            // it ignores: there is no re-check to compare (the property speaks of the re-checks
+            // that happen); go on with the next content
+            obs.label("watch-rename-save-not-rechecked");
+            continue;
+        }
         if !wait_for(&|o, e| got_verdict(o, e).is_some(), 15) {
             inconclusive = true;
+            let o = read_file(&out_path);
+            let e = read_file(&err_path);
+            let alive = matches!(child.try_wait(), Ok(None));
+            crate::lacebox::log(&format!(
+                "C07 watch: no verdict for content #{k} (event code {ev}, watcher alive: {alive}); stdout since the save: {:?}; stderr tail: {:?}",
+                o[mark_out.min(o.len())..].chars().take(300).collect::<String>(),
+                e.chars().rev().take(200).collect::<String>().chars().rev().collect::<String>()
+            ));
             break;
         }
-        // let the debounced burst settle, then read the last verdict for this content
-        std::thread::sleep(std::time::Duration::from_millis(900));
+        // let the debounced burst settle (no output for a second), then read the last verdict
+        let mut last_len = 0;
+        for _ in 0..8 {
+            std::thread::sleep(std::time::Duration::from_millis(1000));
+            let len = read_file(&out_path).len() + read_file(&err_path).len();
+            if len == last_len {
+                break;
+            }
+            last_len = len;
+        }
         let got = got_verdict(&read_file(&out_path), &read_file(&err_path)).unwrap();
         let o = read_file(&out_path);
         let tail = &o[mark_out.min(o.len())..];
@@ -376,6 +455,43 @@ fn judge_watch(contents: &[String]) -> Obs {
     obs
 }
 
+/// Sources that share label names, valid and failing at every stage (after labels were recorded).
+fn watch_pool() -> Vec<String> {
+    vec![
+        "start lea r0 msg\nputs\nloop add r1 r1 #1\nbrn loop\nhalt\nmsg .stringz \"hi\"\n".into(),
+        "start and r0 r0 #0\nnext add r0 r0 #1\nbrz next\nhalt\n.break\nmsg .fill x41\n".into(),
+        "start add r0 r0\nhalt\n".into(),
+        "start br nowhere\nmsg halt\n".into(),
+        "start br far\nloop .blkw #600\nfar halt\n".into(),
+        "loop ld r0 msg\nmsg .fill x1\nstart halt\nloop halt\n".into(),
+        "br msg\nhalt\n".into(),
+        "ld r0 loop\nst r0 next\nhalt\n".into(),
+        "msg halt\nfar br msg\nnext .fill x0\n".into(),
+        "$$$\nstart halt\n".into(),
+    ]
+}
+
+/// Generated scenario number `k` (deterministic in seed and k): 4-7 contents from the pool, each
+/// with a way of reaching the disk and optional changes to other files of the folder.
+fn generated_watch(seed: u64, k: u64) -> Case {
+    let pool = watch_pool();
+    let mut x = mix(seed.wrapping_mul(0x9E37).wrapping_add(k).wrapping_add(0x5EED));
+    let mut next = || {
+        x = mix(x.wrapping_add(0x9E3779B97F4A7C15));
+        x
+    };
+    let n = 4 + (next() % 4) as usize;
+    let mut contents = Vec::new();
+    let mut events = Vec::new();
+    for _ in 0..n {
+        contents.push(pool[(next() % pool.len() as u64) as usize].clone());
+        let how = [0u8, 0, 1, 2, 3][(next() % 5) as usize];
+        let side = [0u8, 0, 0, 4, 8, 8, 16, 12][(next() % 8) as usize];
+        events.push(how | side);
+    }
+    Case::Watch { contents, events }
+}
+
 fn watch_scenarios() -> Vec<Vec<String>> {
     let labelled = "start lea r0 msg\nputs\nloop add r1 r1 #1\nbrn loop\nhalt\nmsg .stringz \"hi\"\n".to_string();
     let other = "start and r0 r0 #0\nnext add r0 r0 #1\nbrz next\nhalt\n.break\nmsg .fill x41\n".to_string();
@@ -394,7 +510,7 @@ fn watch_scenarios() -> Vec<Vec<String>> {
 }
 
 fn source_cases() -> impl Strategy<Value = Case> {
-    let inject = prop_oneof![
+    let inject = crate::pick![
         3 => Just(Inject::None),
         1 => Just(Inject::Lexical),
         1 => Just(Inject::OperandKind),
@@ -419,12 +535,12 @@ impl Prop for C07 {
     fn rule(&self) -> &'static str {
         "ProgGen sources, valid and with one injected error of every class (lexical, operand kind, literal range, duplicate label, undefined label, repeated .orig, and a label out of reach at ANY statement position for every PC-relative form BR/BRz/LD/LDI/LEA/ST/STI/JSR/CALL - the only class that surfaces when words are emitted; paddings barely / comfortably / far beyond the reach, and backward references in programs whose total size sits exactly at the reach of the field), valid programs whose image ends within 2 words of the top of memory, with and without stack mnemonics, with and without `--features stack`, through the real binary: `lace check f.asm`, `lace compile f.asm out.lc3 [flags]`, `lace run f.asm [flags]` and the bare `lace f.asm [flags]` (flag spelled `-f stack`, `--features stack` or `--features=stack`). \
          Oracle: compile and run (same flags) agree on whether the source assembles (run reaches 'Running emitted binary' iff compile exits 0); compile rejects => run and (default setting) check report an error, where a crash (status 101 / signal / panic message) never counts as a report; check succeeds => compile succeeds; check never crashes. \
-         `lace watch`: three scenarios of 3-7 plain rewrites (same labelled source twice, failures half-way then valid again, stack mnemonics): after each debounced re-check the verdict printed (Success / diagnostic / crash) must equal `lace check` on the same content; a scenario that yields no verdict within 15 s is recorded as inconclusive and not asserted. \
+         `lace watch`: three fixed scenarios of 3-7 plain rewrites (same labelled source twice, failures half-way then valid again, stack mnemonics) and 16 (quick) / 80 (thorough) generated ones - 4-7 contents from a pool of ten sources that share label names (valid, failing in the lexer, parser, at backpatch, at emission, on a duplicate label), each saved by rewriting in place, remove-then-create, rename-over or a two-step write, optionally after another file of the folder was created, removed or written: after each debounced re-check the verdict printed (Success / diagnostic / crash) must equal `lace check` on the same content; a scenario that yields no verdict within 15 s is recorded as inconclusive and not asserted. \
          Non-trivial: the only error is an emission-time one, or the source uses a stack mnemonic, or a watch scenario. Distinct = hash(source, flag)."
     }
     fn assumptions(&self) -> Vec<String> {
         vec![
-            "watch is exercised only through Modify events from plain rewrites; editor-specific event patterns and real timing are out of reach; inotify must work in the sandbox (else the scenarios are inconclusive and skipped)".into(),
+            "watch is exercised through the events that in-place rewrites, remove+create, rename-over and changes to sibling files produce; real editor timing is out of reach; inotify must work in the sandbox (else the scenarios are inconclusive and skipped)".into(),
             "valid programs are only run when RefVM says they terminate; watchdog timeouts are excluded, never verdicts".into(),
         ]
     }
@@ -439,8 +555,13 @@ impl Prop for C07 {
         for (i, sc) in watch_scenarios().into_iter().enumerate() {
             // one scenario per worker at most (they take seconds each)
             if ctx.worker == i % ctx.nworkers {
-                judge_one(ctx, rep, &Case::Watch { contents: sc }, &mut |c| judge_case(c));
+                judge_one(ctx, rep, &Case::Watch { contents: sc, events: vec![] }, &mut |c| judge_case(c));
             }
+        }
+        // generated scenarios: every worker runs its own (they take 10-20 s each)
+        for round in 0..ctx.tier.pick(1u64, 5) {
+            let k = round * ctx.nworkers as u64 + ctx.worker as u64;
+            judge_one(ctx, rep, &generated_watch(ctx.seed, k), &mut |c| judge_case(c));
         }
     }
     fn replay(&self, _ctx: &Ctx, case: &Value) -> Obs {
